@@ -41,6 +41,7 @@ class Interp(object):
         self.log_names = ('LOG', 'log', 'logging')
         self.while_unroll = WHILE_UNROLL
         self.merge_loops = False
+        self.record_enter = False
         self.unpack_may_raise = False
         self.opaque_funcs_may_raise = set()
         self.merge_call_prefixes = ()
@@ -381,6 +382,10 @@ class Interp(object):
                 return r
         if isinstance(fv, FuncV):
             if fv.finfo.qualname in self.opaque_funcs:
+                if self.record_enter:
+                    st.actions.append(Action('enter', fv.selfv.desc() if fv.selfv is not None else '',
+                                             fv.finfo.qualname, args, kwargs, line,
+                                             getattr(st.cur_func(), 'qualname', None)))
                 res = self.call_opaque(fv, args, kwargs, st, line, node)
                 if fv.finfo.qualname in self.opaque_funcs_may_raise:
                     s2 = st.fork()
@@ -453,6 +458,10 @@ class Interp(object):
         for ko, d in zip(a.kwonlyargs, a.kw_defaults):
             if ko.arg not in frame and d is not None:
                 frame[ko.arg] = self.eval_default(d, f)
+        if self.record_enter:
+            st.actions.append(Action('enter', fv.selfv.desc() if fv.selfv is not None else '',
+                                     f.qualname, args, kwargs, line,
+                                     getattr(st.cur_func(), 'qualname', None)))
         st.frames.append(frame)
         out = []
         for kind, v, s in self.exec_block(f.node.body, st):
